@@ -292,6 +292,7 @@ _METHOD_EXTRAS = [
     "    def __post_init__(self):\n        super().__init__()\n",                                 # ... in __post_init__
     "    @classmethod\n    def __init_subclass__(cls, **kw):\n        super().__init_subclass__(**kw)\n        cls.sub = True\n",  # ... in a subclass hook
     "    def describe(self):\n        return 'M+' + Mixin.describe(self)\n",                      # explicit base call
+    "    def describe(self):\n        tag = 'M+'\n        join = lambda s: tag + s\n        return join(super().describe())\n",  # super() next to a cell variable
 ]
 
 
@@ -304,7 +305,7 @@ def make_methods(timeout):
         with NoTracing():
             k = ch.pick(len(_METHOD_EXTRAS))
             frozen = ch.flag() and k != 2
-            with_mixin = ch.flag() or k in (1, 3, 4)
+            with_mixin = ch.flag() or k in (1, 3, 4, 5)
             w = ch.flag()
             ns = {"__name__": MOD.__name__}
             exec(_METHOD_SRC.format(frozen=frozen, bases="Mixin" if with_mixin else "object", extra=_METHOD_EXTRAS[k]), ns)  # noqa: S102
@@ -326,11 +327,48 @@ def make_methods(timeout):
             for (name, fn), a in zip(probes, want):
                 b = attempt(fn, S)
                 if a[0] != b[0] or (a[0] and a[1] != b[1]):
-                    kind = "zero_arg_super" if (k in (1, 2, 3) and not b[0] and "super" in str(b[1])) else "other"
+                    kind = "zero_arg_super" if (k in (1, 2, 3, 5) and not b[0] and "super" in str(b[1])) else "other"
                     return (f"user_member_behaves_differently:{kind}", "methods:" + name, _d(desc, a, b))
         return None
 
     return Cond("methods/user_members", [(f"c{i}", int) for i in range(4)], body, mode="E3", timeout=timeout)
+
+
+def make_redeclare(timeout):
+    """A child that re-declares a field inherited from an (un)slotted base - with a new plain default or a default factory."""
+
+    def body(c0: int, c1: int, c2: int, c3: int, c4: int):
+        ch = Chooser((c0, c1, c2, c3, c4))
+        with NoTracing():
+            basek = 1 + ch.pick(4)
+            frozen = ch.flag()
+            kind = ch.pick(2)
+            d, w = ch.flag(), ch.flag()
+            base = _mk("Base", [("b", int, dataclasses.field(default=7))], frozen=frozen)
+            if basek in (2, 3):
+                base = _slotted(base, dict=False, weakref=(basek == 3))
+            if basek == 4:
+                ground = _mk("Ground", [("g", int, dataclasses.field(default=1))], frozen=frozen)
+                base = _slotted(_mk("Base", [("b", int, dataclasses.field(default=7))], bases=(ground,), frozen=frozen), dict=False, weakref=False)
+            if basek in (3,) and w:
+                w = False  # the base already provides __weakref__
+            redecl = ("b", int, dataclasses.field(default=5)) if kind == 0 else ("b", list, dataclasses.field(default_factory=list))
+            C = _mk("C", [redecl, ("z", int, dataclasses.field(default=0))], bases=(base,), frozen=frozen)
+            desc = dict(redeclare=kind, base=basek, dict=d, weakref=w, frozen=frozen)
+            try:
+                S = _slotted(C, dict=d, weakref=w)
+            except Exception as e:  # noqa: BLE001
+                reached()
+                return ("decoration_raised:" + type(e).__name__, "redeclare", _d(desc, e))
+            reached()
+            for name, fn in (("construct", lambda K: dataclasses.astuple(K())), ("construct_kw", lambda K: dataclasses.astuple(K(z=3))),
+                             ("repr", lambda K: repr(K())), ("eq", lambda K: K() == K()), ("default", lambda K: K().b)):
+                a, b = attempt(fn, C), attempt(fn, S)
+                if a[0] != b[0] or (a[0] and a[1] != b[1]):
+                    return ("redeclared_field_behaves_differently", "redeclare:" + name, _d(desc, a, b))
+        return None
+
+    return Cond("redeclare/inherited_field", [(f"c{i}", int) for i in range(5)], body, mode="E3", timeout=timeout)
 
 
 class _Pinned:
@@ -432,4 +470,5 @@ def conditions(tier, seed):
     out = [make_def(b, d, w, to, mf) for b in range(5) for d in (False, True) for w in (False, True)]
     out += [make_history(n, to) for n in ((1, 2, 3) if tier == "quick" else (1, 2, 3, 4))]
     out.append(make_methods(to))
+    out.append(make_redeclare(to))
     return out
